@@ -442,7 +442,10 @@ static int Convert_mus2midi(uint8_t *in, uint32_t insize,
             delta_time = 0;
             do {
                 MUS_NEED(1);
-                delta_time = (int32_t)((delta_time * 128 + (*cur & 127)) * (140.0 / (double)frequency));
+                double delta = ((double)delta_time * 128.0 + (double)(*cur & 127)) * (140.0 / (double)frequency);
+                if (delta > 268435455.0) /* largest value a 4-byte MIDI variable-length quantity can hold */
+                    delta = 268435455.0;
+                delta_time = (int32_t)delta;
             } while ((*cur++ & 128));
         } else {
             delta_time = 0;
